@@ -167,17 +167,16 @@ removed (`drop_fmtExpr`: that is the text printed without verbose mode, for ever
 (`parse_exprR`: the bare text of a well-formed expression — no anchors, no group around a top-level alternation).  What is missing for
 the full statement: the two excluded characters and `-e` with surrogate pairs; those inputs are compared per input.  Note that `hvt`
 speaks about the text of the first candidate, an internal object (it holds whenever no test case contains U+000B or U+000C, which is
-not proved here), and that the bound of 1000 graphemes per test case is asked for without `-r` as well (it comes with the `-r` print →
-parse theorem that is reused) -/
+not proved here); the bound of 1000 graphemes per test case is asked for with `-r` only -/
 theorem verbose_unanchored_build_total_partial (cfg : Config) (hsur : cfg.sur = false)
     (hmr : cfg.rep = true → 1 ≤ cfg.minRep) (env : Env) (ws : List Str)
     (hseg : ∀ w ∈ storedCases cfg env ws, SegOK env w)
-    (hlen : ∀ w ∈ storedCases cfg env ws, (clusterOfPieces (env.segOf w)).length ≤ 1000)
+    (hlen : cfg.rep = true → ∀ w ∈ storedCases cfg env ws, (clusterOfPieces (env.segOf w)).length ≤ 1000)
     (hvt : ∀ m, Dfa.minimize (Dfa.trie (graphemeClusters cfg env (sortCases (storedCases cfg env ws)))) Dfa.pickMin = some m →
       ∀ c ∈ fmtExpr (cfgPlain cfg.cap cfg.esc) (Expr.ofDfa cfg m), c ≠ 11 ∧ c ≠ 12) :
     ∃ st, regExpFrom cfg env ws = .ok st :=
   verbose_unanchored_total cfg hsur hmr env ws hseg
-    (fun w hw => by have := hlen w hw; rwa [clusterOfPieces_eq, List.length_map] at this) hvt
+    (fun hr w hw => by have := hlen hr w hw; rwa [clusterOfPieces_eq, List.length_map] at this) hvt
 
 /-- **C07 (totality, both anchors off)** whatever makes the model of `RegExp::from` fail is the `unwrap()` on the candidate re-compiled
 with its line breaks removed — and that happens in verbose mode only (`unanchored_failure_is_verbose`) -/
